@@ -88,6 +88,14 @@ def enumInputW (names : List (List Ch)) (s : IStream) : IStream × Option Nat :=
   | some e => (s, some e)
   | none => ({ s with fail := true }, none)
 
+/-- `stream >> v` repeated `k` times on one stream (vectors of `n` elements): the vectors stored -/
+def vecInputMany (t : IntTy) (n : Nat) : Nat → IStream → IStream × List (List Int)
+  | 0, s => (s, [])
+  | k + 1, s =>
+    let (s1, vs) := vecInput t n s
+    let (s2, r) := vecInputMany t n k s1
+    (s2, vs :: r)
+
 /-! ## matrices and enum arrays (output only: there is no input operator) -/
 
 /-- `one_dimensional_output` over the rows of a matrix: every row is printed as a vector -/
